@@ -86,7 +86,11 @@ def _mk_binary(name, dom, cplx):
             d2 = LARGE[name][c.int(0, len(LARGE[name]) - 1)]
             return Call("b:" + name, lambda ns, x, y: getattr(ns, name)(x, y), [sa, sb], dom=d2, cplx=False,
                         desc=[name, list(sa), list(sb), "large", list(d2)], feats=dict(_bfeats(name, sa, sb), scale="large"))
-        return Call("b:" + name, lambda ns, x, y: getattr(ns, name)(x, y), [sa, sb], dom=dom, cplx=cplx,
+        if name == "power" and c.chance(1, 4):
+            # a negative real base: only meaningful with a complex exponent (NumPy then promotes and the value is finite)
+            return Call("b:" + name, lambda ns, x, y: getattr(ns, name)(x, y), [sa, sb], doms=[(-2.5, -0.4), (0.4, 2.5)], cplx=True, cdom=(-2.0, 2.0),
+                        desc=[name, list(sa), list(sb), "negative base"], feats=dict(_bfeats(name, sa, sb), negative_base=True))
+        return Call("b:" + name, lambda ns, x, y: getattr(ns, name)(x, y), [sa, sb], dom=dom, cplx=cplx, cdom=(-2.0, 2.0) if cplx else None,
                     desc=[name, list(sa), list(sb)], feats=_bfeats(name, sa, sb))
 
     template("b:" + name, "binary", has_kink=name in ("maximum", "minimum", "fmax", "fmin", "power"))(draw)
